@@ -143,25 +143,32 @@ static void handler(vh::Reader& r, vh::Out& o)
 		for(long j = 0; j < k; j++)
 		{
 			std::string c = r.word();
+			// X, XD, XM, XF, XO: the call I, D, M, F, O whose integrand abandons it (throws) at its k-th evaluation
+			bool abandonable = c.size() >= 1 && c[0] == 'X';
+			if(abandonable)
+				c = c.size() == 1 ? "I" : c.substr(1);
 			double a = r.num(), b = r.num(), eps = 0, prec = 0;
 			int depth = 0;
 			long abandon_at = 0;
-			if(c == "I" || c == "X")
+			std::string method;
+			if(c == "I")
 			{
 				eps	  = eps_tok();
 				depth = (int) r.integer();
-				if(c == "X")
-					abandon_at = r.integer();
 			}
 			else if(c == "D")
 				eps = eps_tok();
 			else if(c == "F")
 				prec = r.num();
+			else if(c == "O")
+				method = r.word();
 			else if(c != "M")
 			{
 				o.w("HARNESSERR unknown_call");
 				return;
 			}
+			if(abandonable)
+				abandon_at = r.integer();
 			skip_family(r);
 			auto f = vh::fun1(vh::parse_fexpr(r));
 			std::vector<double> trace;
@@ -172,32 +179,47 @@ static void handler(vh::Reader& r, vh::Out& o)
 				return f(x);
 			};
 			diag_reset();
-			double v;
-			if(c == "X")
+			double v = 0.0;
+			if(c == "O")
 			{
-				// the integrand abandons the integration at its abandon_at-th evaluation (exception through the library)
+				// another method of the string overload (not part of the property): made for the history only, its answer is
+				// not reported; whatever it throws (the integrand's Abandon, an evaluation error of the quadrature) ends it
 				try
 				{
-					v = Integrate(g, a, b, eps, depth);
+					v = Integrate(g, a, b, method);
 				}
-				catch(const Abandon&)
+				catch(...)
 				{
-					o.f(std::nan(""));
-					o.i(0);
-					o.i((long) trace.size());
-					o.f(INFINITY);
-					o.f(-INFINITY);
-					continue;
 				}
+				diag_reset();
+				o.f(0.0);
+				o.i(0);
+				o.i(0);
+				o.f(INFINITY);
+				o.f(-INFINITY);
+				continue;
 			}
-			else if(c == "I")
-				v = Integrate(g, a, b, eps, depth);
-			else if(c == "D")
-				v = Integrate(g, a, b, eps);
-			else if(c == "M")
-				v = Integrate(g, a, b, "Adaptive-Simpson");
-			else
-				v = last = Find_Epsilon(g, a, b, prec);
+			try
+			{
+				if(c == "I")
+					v = Integrate(g, a, b, eps, depth);
+				else if(c == "D")
+					v = Integrate(g, a, b, eps);
+				else if(c == "M")
+					v = Integrate(g, a, b, "Adaptive-Simpson");
+				else
+					v = last = Find_Epsilon(g, a, b, prec);
+			}
+			catch(const Abandon&)
+			{
+				// the integrand abandoned the call at its abandon_at-th evaluation (exception through the library)
+				o.f(std::nan(""));
+				o.i(0);
+				o.i((long) trace.size());
+				o.f(INFINITY);
+				o.f(-INFINITY);
+				continue;
+			}
 			bool warn = diag_has("did not converge");
 			o.f(v);
 			o.i(warn ? 1 : 0);
